@@ -80,6 +80,7 @@ def op_strategy(races):
            st.tuples(st.just('stable')).map(list)]
     if races:
         ops = [st.tuples(st.just('at_call'), st.integers(1, 6), WORLD_OP).map(list)] * 5 + ops
+        ops += [st.tuples(st.just('miss'), st.integers(1, 2), BLOCK).map(list)] * 2
     return st.one_of(*ops)
 
 
@@ -88,14 +89,25 @@ INIT_BLOCK = st.builds(lambda cb, nonce, txs: {'cb': cb, 'nonce': nonce, 'coll':
                        st.lists(TX, max_size=3))
 
 
+def with_collisions(init, g):
+    if g is None:
+        return init
+    init = [dict(b) for b in init]
+    for m in range(3):
+        init[m]['coll'] = [g, m]
+    return init
+
+
 def case_strategy(races):
     return st.builds(
-        lambda a, p, init, ops, tape: {'activation': a, 'prefetch': p, 'init': init, 'ops': ops,
-                                       'tape': tape},
+        lambda a, p, init, ops, tape, g: {'activation': a, 'prefetch': p,
+                                          'init': with_collisions(init, g), 'ops': ops,
+                                          'tape': tape},
         st.integers(0, 12), st.integers(1, 8),
         st.lists(INIT_BLOCK, min_size=8, max_size=12),
         st.lists(op_strategy(races), min_size=4 if races else 2, max_size=16),
-        st.lists(st.integers(0, 3), max_size=60))
+        st.lists(st.integers(0, 3), max_size=60),
+        st.none() | st.integers(0, 223))
 
 
 class MempoolMachine:
@@ -361,6 +373,15 @@ class MempoolMachine:
                 self.accept_passes += 1
                 return real_accept(tx_map, utxo_map, touched)
             self.server.mempool._accept_transactions = accept
+            notif = self.server.mempool.api
+            real_lookup = notif.lookup_utxos
+
+            async def lookup_utxos(prevouts):
+                res = await real_lookup(prevouts)
+                if any(r is None for r in res):
+                    self.info['classes'].add('utxo_lookup_missed')
+                return res
+            notif.lookup_utxos = lookup_utxos
             for op in self.case['ops']:
                 kind = op[0]
                 if kind == 'sleep':
@@ -369,6 +390,23 @@ class MempoolMachine:
                     await self.wait_stable()
                 elif kind == 'at_call':
                     self.deferred.append([op[1], op[2]])
+                elif kind == 'miss':
+                    # UTXO lookups miss: a new tx spends the newest confirmed output, the lookup
+                    # job is slow, and meanwhile a fork undoes the block that created that output
+                    tx = self.world.mp_add({'ins': [[0, -1]], 'outs': [[0, 1]], 'gen': 0})
+                    if tx is not None:
+                        self.was_in_mempool.add(tx.txid)
+                        machine = self
+
+                        def rule(job, armed=[True], depth=op[1], block=op[2]):
+                            if armed[0] and job.name == 'lookup_hashXs':
+                                armed[0] = False
+                                loop.job_time_rule = None
+                                machine.apply_world(['fork', depth, [block]])
+                                machine.info['classes'].add('slow_lookup_across_fork')
+                                return 8.0, 0.0
+                            return 0.0, 0.0
+                        loop.job_time_rule = rule
                 else:
                     self.apply_world(op)
                 self.server.check_alive()
